@@ -12,11 +12,16 @@ TECHNIQUE = ("Lean 4 theorems (soundness under pair-injectivity, completeness fo
              "irrelevance) over an executable transcription of CompleteBinaryTreeMixin / HashTree / IncompleteHashTree; "
              "differential correspondence of whole set_hashes histories (outcome class and list contents after every call, "
              "set.pop() order injected) against the real classes with real SHA-256d hashes mapped to symbolic terms")
-LEVEL_TEXT = ("Soundness, completeness, rollback and order-irrelevance proved in Lean for trees of any size, any adversarial "
-              "hashes and any pop order, for a symbolic collision-free pair hash; the model is tied to hashtree.py by exhaustive "
-              "small-scope (1..8 leaves) and seeded (to 64 leaves) comparison of outcomes and list contents.")
+LEVEL_TEXT = ("Proved in Lean for trees of any size, any adversarial hashes/leaves and every set.pop() order: rollback, soundness "
+              "(+ accepted leaf is genuine) under pair-injectivity, completeness on closed trees (closedness proved invariant), "
+              "order-irrelevance of accept/reject and of the accepted tree, and that HashTree(L) is a genuine padded Merkle tree. "
+              "All for a presence test that never takes a stored hash for None (the repaired code; or the code as it is over "
+              "non-empty hashes); the b\"\" and IndexError corners of the code as it is are proved counterexamples. Model tied to "
+              "hashtree.py by exhaustive small-scope (1..8 leaves) and seeded (to 64 leaves) comparison of outcomes and list contents.")
 LEVEL_NOTE = ("Lean kernel + standard axioms; model hand-written, tied by correspondence; SHA-256d collision resistance enters as "
-              "the explicit hypothesis that pair is injective (satisfied by the symbolic term instance).")
+              "the explicit hypothesis PairInjective (satisfied by the symbolic term instance). The Lean model run by the check is "
+              "the repaired behaviour (fixes/C35-falsy-hash-and-indexerror.diff); C35_MODEL_MODE=asis runs the model of the "
+              "unrepaired code instead.")
 RULE = ("a case is one set_hashes call of a history on a real IncompleteHashTree (state before, hashes, leaves, pop order); "
         "distinct = distinct (num_leaves, tree-before, call) triples; non-trivial = the call supplies at least one hash to a "
         "tree of at least 2 leaves. Index-arithmetic / HashTree-construction / needed_hashes comparisons are counted as "
